@@ -1,4 +1,4 @@
-CONSTANTS NVals = 2  NOpsMax = 1  Rich = TRUE  ScheduleOnce = TRUE
+CONSTANTS NVals = 3  NOpsMax = 2  Rich = FALSE  ScheduleOnce = TRUE
 SPECIFICATION Spec
 INVARIANTS ResultOk SortIsPermutation
 PROPERTY Terminates
